@@ -485,7 +485,12 @@ with parse_internal (fuel : nat) (w : pw) (c : cfg) (level : nat) (p : pst) {str
                 | None => error w1 c1
                 | Some _ =>
                     let '(w2, f) := run_validcb w1 o1 in
-                    if f then error w2 c1 else continue w2 c1 (st_state (st_num p (S (s_num p))) 0)
+                    if f then error w2 c1
+                    else
+                      let o2 := match s_comment p with Some cm => opt_setcomment o1 cm | None => o1 end in
+                      let c2 := put_opt c1 r o2 in
+                      let p1 := st_comment p None in
+                      continue w2 c2 (st_state (st_num p1 (S (s_num p1))) 0)
                 end
           | _, _ => (set_crash w "null-deref:state3", c, PERR)
           end
